@@ -191,6 +191,9 @@ def items(tier):
                 out.append((sp, {"rule": "TSLACK", "due": False, "rev": rev, "absence": [], "max_time": F.seq_bound(sp) + 12}))
     for sp, o in list(out)[:: (29 if tier == "quick" else 7)]:
         out.append((sp, dict(o, via_json=True)))
+    for sp in F.scale_specs():
+        if sp["label"] in ("scale:layers3x4", "scale:seven-predecessors", "scale:chain10+branches"):
+            out.append((sp, {"rule": "TSLACK", "due": False, "rev": True, "absence": [], "max_time": F.seq_bound(sp) + 20}))
     for sp in F.same_name_task_specs():
         for rev in (True, False):
             out.append((sp, {"rule": "TSLACK", "due": False, "rev": rev, "absence": [], "max_time": 20}))
